@@ -227,6 +227,10 @@ def run_history(ctx, rng):
         return
     lambdas = est.lambda_vecs_
     preds = est.predictors_
+    # float32 label arrays make the library's objective weights single precision (costs such as 0.3 are then rounded to 0.30000001):
+    # rounding of the caller's own dtype, not a defect - compare at single precision in that case
+    f32 = str(getattr(y, "dtype", "")) == "float32"
+    wtol, vtol = (1e-6, 1e-6) if f32 else (1e-9, 1e-9)
     wobj = RM.error_weights(ds.y, fp, fn)
     from vf.refs import saddle as RS
 
@@ -240,13 +244,13 @@ def run_history(ctx, rng):
         yred = (w > 0).astype(int)
         if isinstance(p, DummyClassifier):
             ctx.ev("dummy_predictors_seen")
-            live = np.abs(w) > 1e-9 * max(1.0, float(np.abs(w).max()))
+            live = np.abs(w) > wtol * max(1.0, float(np.abs(w).max()))
             ctx.check(len(set(yred[live].tolist())) <= 1, "dummy_predictor_although_relabelled_y_has_two_classes", column=repr(col), wit=wit)
             # the constant fallback is itself the best response (pointwise optimal when all weights have one sign): same consequence
             e_h, g_h = tab.of(np.asarray(p.predict(ds.X), float))
             lv = tab.lam_vec({mapping[e]: float(lam[e]) for e in mom.index})
             ctx.ev("best_response_consequences_checked")
-            ctx.check(e_h + float(g_h @ lv) <= float((tab.err + tab.G @ lv).min()) + 1e-9, "constant_fallback_does_not_minimise_objective_plus_lambda_gamma",
+            ctx.check(e_h + float(g_h @ lv) <= float((tab.err + tab.G @ lv).min()) + vtol, "constant_fallback_does_not_minimise_objective_plus_lambda_gamma",
                       column=repr(col), constant=float(np.asarray(p.predict(ds.X[:1]), float)[0]), value=e_h + float(g_h @ lv),
                       minimum_over_class=float((tab.err + tab.G @ lv).min()), w=w.tolist(), wit=wit)
             continue
@@ -256,10 +260,10 @@ def run_history(ctx, rng):
         ctx.ev("learner_fit_records_compared")
         # rows whose weight is zero up to rounding (objective and constraint weights cancel exactly) carry no information:
         # their label is decided by the last bit and their sample weight is ~0
-        live = np.abs(w) > 1e-9 * max(1.0, float(np.abs(w).max()))
+        live = np.abs(w) > wtol * max(1.0, float(np.abs(w).max()))
         ctx.check(len(p.fit_y_) == ds.n and p.fit_y_[live].tolist() == yred[live].tolist(), "learner_not_fitted_on_labels_1_w_positive", column=repr(col),
                   fitted_y=p.fit_y_.tolist(), expected=yred.tolist(), w=w.tolist(), lam={repr(k): float(v) for k, v in lam.items()}, wit=wit)
-        ctx.check(bool(np.allclose(_norm(p.fit_w_), _norm(w), rtol=1e-9, atol=1e-12)), "learner_sample_weight_not_proportional_to_abs_w",
+        ctx.check(bool(np.allclose(_norm(p.fit_w_), _norm(w), rtol=wtol, atol=1e-12)), "learner_sample_weight_not_proportional_to_abs_w",
                   column=repr(col), fitted_w=p.fit_w_.tolist(), expected_abs_w=np.abs(w).tolist(), wit=wit)
         ctx.check(np.asarray(p.fit_X_).shape[0] == ds.n and bool(np.allclose(np.asarray(p.fit_X_, float)[:, 0], ds.X[:, 0])),
                   "learner_fitted_on_different_features", column=repr(col), wit=wit)
@@ -267,7 +271,7 @@ def run_history(ctx, rng):
         e_h, g_h = tab.of(np.asarray(p.predict(ds.X), float))
         lv = tab.lam_vec({mapping[e]: float(lam[e]) for e in mom.index})
         ctx.ev("best_response_consequences_checked")
-        ctx.check(e_h + float(g_h @ lv) <= float((tab.err + tab.G @ lv).min()) + 1e-9, "reweighted_best_response_does_not_minimise_objective_plus_lambda_gamma",
+        ctx.check(e_h + float(g_h @ lv) <= float((tab.err + tab.G @ lv).min()) + vtol, "reweighted_best_response_does_not_minimise_objective_plus_lambda_gamma",
                   column=repr(col), value=e_h + float(g_h @ lv), minimum_over_class=float((tab.err + tab.G @ lv).min()), wit=wit)
 
 
